@@ -78,6 +78,20 @@ static Verdict run(const Case &c) {
         }
         default: break;
     }
+    // [13] seconds that pass (without any tick) between the moment the table was filled and the classification: a session is "known"
+    //      as long as the table holds it, however long ago it was last heard of
+    // [14] a SECOND session table (another interface of the host) knows the same mapper and generation under another transaction id and
+    //      is consulted first: what it holds says nothing about the table the frame is classified against
+    void *t2 = nullptr;
+    if (c.c(14)) {
+        t2 = br_st_create();
+        if (t2) {
+            br_st_add(t2, MAPPER.b, gen, (uint16_t)(c.c(14) == 1 ? xid ^ 0x0100 : xid));
+            (void)br_st_find(t2, MAPPER.b, gen, xid);
+            (void)br_derive_session_event(buf, len, t2, OWN.b);
+        }
+    }
+    if (c.c(13) > 0) vp_set_now_ms(vp_now_ms() + (uint64_t)std::min<int64_t>(c.c(13), 100000) * 1000);
     Bytes before;
     if (t) before.assign((const uint8_t *)br_st_raw(t), (const uint8_t *)br_st_raw(t) + br_st_sizeof());
     if (!src_is_mapper) changed = false;   // the table knows MAPPER, not the own address
@@ -103,6 +117,7 @@ static Verdict run(const Case &c) {
         if (ev != 7) v.fail(fmt("Hello: %s, expected 7", got.c_str()));
     } else if (ev != -1) v.fail(fmt("opcode %d: %s, expected no event (-1)", opcode, got.c_str()));
     if (t) br_st_destroy(t);
+    if (t2) br_st_destroy(t2);
     free(buf);
     v.nontrivial = opcode == OP_DISCOVER && ((n >= 2 && p >= 1) || (decoy && n >= 1) || extra);
     if (opcode == OP_DISCOVER) {
@@ -110,6 +125,8 @@ static Verdict run(const Case &c) {
         v.cls(fmt("table-class-%d", tclass));
         if (decoy) v.cls(fmt("decoy-%d", decoy));
         if (held < n) v.cls("count-exceeds-frame");
+        if (c.c(13) > 60) v.cls("session-last-heard-of-more-than-60s-ago");
+        if (c.c(14)) v.cls("second-table-knows-the-mapper");
         if (extra) v.cls("frame-holds-more-than-count");
     } else v.cls(opcode == OP_RESET ? "reset" : opcode == OP_HELLO ? "hello" : "other-opcode");
     return v;
@@ -141,7 +158,7 @@ int main(int argc, char **argv) {
         for (int p = -1; p < n && ok; p++)
             for (int t = 0; t < T_NCLASSES && ok; t++, k++) {
                 if (k % a.nshards != a.shard) continue;
-                ok = one(a, ev, {n, p, (n + p + t) % 4 == 0 ? 3 : 0, t, OP_DISCOVER, n & 1, 1, -1, 0x1234, 0x0042, 1, (n + t) % 3 == 0 ? 2 : 0}, "c11-layouts");
+                ok = one(a, ev, {n, p, (n + p + t) % 4 == 0 ? 3 : 0, t, OP_DISCOVER, n & 1, 1, -1, 0x1234, 0x0042, 1, (n + t) % 3 == 0 ? 2 : 0, 0, std::vector<int64_t>{0, 0, 59, 61, 500}[(size_t)(n + 2 * p + t + 2) % 5], std::vector<int64_t>{0, 0, 1, 2}[(size_t)(n + p + 3 * t + 1) % 4]}, "c11-layouts");
             }
     for (int opc = 0; opc < 256 && ok; opc++)
         for (int bc = 0; bc < 4 && ok; bc++) {   // real destination broadcast? x Ethernet destination broadcast?
@@ -156,7 +173,7 @@ int main(int argc, char **argv) {
             int64_t held = *gx::chance(25) ? *gx::range<int64_t>(0, n) : -1;
             int64_t opc = *gx::weighted<int64_t>({{12, rc::gen::just<int64_t>(0)}, {1, rc::gen::just<int64_t>(8)}, {1, rc::gen::just<int64_t>(1)}, {1, gx::range<int64_t>(0, 255)}});
             c.cfg = {n, p, *gx::pick({0, 0, 1, 2, 3}), *gx::range<int64_t>(0, T_NCLASSES - 1), opc, *gx::pick({0, 1}), *gx::pick({0, 1}), held,
-                     *gx::bnd({0, 1, 0xFFFF}, 0, 0xFFFF, 1, 1), *gx::bnd({0, 1, 0xFFFF}, 0, 0xFFFF, 1, 1), *gx::pick({0, 1}), *gx::pick({0, 0, 1, 3}), *gx::pick({0, 0, 0, 0, 1})};
+                     *gx::bnd({0, 1, 0xFFFF}, 0, 0xFFFF, 1, 1), *gx::bnd({0, 1, 0xFFFF}, 0, 0xFFFF, 1, 1), *gx::pick({0, 1}), *gx::pick({0, 0, 1, 3}), *gx::pick({0, 0, 0, 0, 1}), *gx::pick({0, 0, 0, 1, 59, 60, 61, 62, 500}), *gx::pick({0, 0, 0, 1, 2})};
             return c;
         });
         ok = run_cases(a, ev, "c11-random", a.n(200000, 2000000), 100, gen, run);
